@@ -533,28 +533,48 @@ func c02(c *core.Ctx, r *core.Report) {
 		for _, call := range dropCalls {
 			fn := call.Parent()
 			key := core.FuncName(fn) + "#drop-guard"
-			var setCall ssa.CallInstruction
-			for _, sc := range an.AllCalls(fn) {
-				if v, isV := sc.(ssa.Value); isV && isSwapResult(pf, v, 3) {
-					setCall = sc
+			// the guard sits in the function that reports the drop, or — when the report was moved into a helper — at
+			// every call site of that helper
+			var guardedAt func(at ssa.CallInstruction, depth int) (bool, string)
+			guardedAt = func(at ssa.CallInstruction, depth int) (bool, string) {
+				holder := at.Parent()
+				var setCall ssa.CallInstruction
+				for _, sc := range an.AllCalls(holder) {
+					if v, isV := sc.(ssa.Value); isV && isSwapResult(pf, v, 3) {
+						setCall = sc
+					}
 				}
+				why := "no guard on " + core.FuncName(lim)
+				for _, g := range an.GuardsOf(at.Block()) {
+					gc, isCall := an.Strip(g.Cond).(*ssa.Call)
+					if !isCall || !isLimitPredicate(an.Callee(gc), lim) {
+						continue
+					}
+					if g.Polarity {
+						why = "drops are reported only when the limit IS reached"
+						continue
+					}
+					if setCall != nil && !an.Dominates(setCall, gc) {
+						why = "the limit test at " + an.Pos(c, gc) + " is evaluated before the Swap at " + an.Pos(c, setCall) + ": the limit can be reached in between"
+						continue
+					}
+					return true, ""
+				}
+				if depth <= 0 || setCall != nil {
+					return false, why
+				}
+				sites := an.CallSitesOf(c, holder)
+				if len(sites) == 0 {
+					return false, why
+				}
+				for _, s := range sites {
+					if ok, w := guardedAt(s, depth-1); !ok {
+						return false, w
+					}
+				}
+				return true, ""
 			}
-			ok, why := false, "no guard on "+core.FuncName(lim)
-			for _, g := range an.GuardsOf(call.Block()) {
-				gc, isCall := an.Strip(g.Cond).(*ssa.Call)
-				if !isCall || !isLimitPredicate(an.Callee(gc), lim) {
-					continue
-				}
-				if g.Polarity {
-					why = "drops are reported only when the limit IS reached"
-					continue
-				}
-				if setCall != nil && !an.Dominates(setCall, gc) {
-					why = "the limit test at " + an.Pos(c, gc) + " is evaluated before the Swap at " + an.Pos(c, setCall) + ": the limit can be reached in between"
-					continue
-				}
-				ok = true
-			}
+			ok, why := guardedAt(call, 2)
 			r.Check(ok, key, an.Pos(c, call), "guarded by !"+core.FuncName(lim)+"() evaluated after the Swap", "drop report not guarded by a negative limit test after the Swap: "+why)
 		}
 	})
@@ -590,8 +610,10 @@ func isCancelFieldCall(call ssa.CallInstruction) bool {
 	if an.Callee(call) != nil || call.Common().IsInvoke() {
 		return false
 	}
+	// the cancel function a pool of internal/workers keeps for its worker context (not any CancelFunc field: a test
+	// handle may own a context of its own)
 	fld, _ := an.TerminalField(call.Common().Value)
-	return fld != nil && an.IsNamed(fld.Type(), "context", "CancelFunc")
+	return fld != nil && an.IsNamed(fld.Type(), "context", "CancelFunc") && fld.Pkg() != nil && fld.Pkg().Path() == workersPkg
 }
 
 func callsCancelField(fn *ssa.Function) bool {
